@@ -4,13 +4,13 @@ from xvlib import *
 
 def hp_consts(**kw):
     c = {'Threads': '<-ThreadsDef', 'Locs': '<-LocsDef', 'InitVal': '<-InitValDef', 'Ord': '<-OrdCode', 'Weak': False,
-         'NT': 2, 'K': 2, 'NG': 2, 'NCells': 1, 'NNodes': 3, 'MaxOps': 2, 'Revalidate': True, 'Reuse': False, 'Threshold': 0}
+         'NT': 2, 'K': 2, 'NG': 2, 'NCells': 1, 'NNodes': 3, 'MaxOps': 2, 'Revalidate': True, 'Reuse': False, 'Threshold': 0, 'Roles': '<-RolesAll', 'Exits': False, 'AdoptFirst': True}
     c.update(kw)
     return c
 
 
 HP_ACTIONS = ['Begin', 'Touch', 'StartFlush', 'AllocTo', 'a_ld1', 'a_set', 'a_fence', 'a_ld2', 'e_ldx', 'e_ld1', 'e_set', 'e_ld2',
-              'r_st', 'c_set', 'op_done', 'x_cas', 's_fence8', 's_ld', 's_fence9', 's_free']
+              'r_st', 'c_set', 'op_done', 'x_cas', 's_fence8', 's_adopt', 's_act', 's_ld', 's_free']
 
 
 def eb_consts(**kw):
@@ -61,11 +61,20 @@ def run_models(ctx, pid):
         lambda: tlc_mc(ctx, 'hp_2t_reuse', 'HazardPointer', hp_consts(MaxOps=2, NNodes=2, Reuse=True), invariants=inv, view='mcview', workers=8, tmo=900),
         lambda: tlc_mc(ctx, 'hp_toggle_norevalidate', 'HazardPointer', hp_consts(Revalidate=False), invariants=['Safe'], view='mcview',
                        workers=4, expect='violation'),
+        # thread exit: a scanner, a holder, and a thread that retires the held node and exits (abandoned retired nodes, adoption in scan)
+        lambda: tlc_mc(ctx, 'hp_3t_exit', 'HazardPointer', hp_consts(NT=3, K=1, NG=1, NCells=2, NNodes=4, MaxOps=1, Exits=True, Roles='<-RolesExit3'),
+                       invariants=inv, view='mcview', workers=6, tmo=900, must_cover=['StartExit', 'x_abandon', 'x_release', 's_adopt']),
+        lambda: tlc_mc(ctx, 'hp_toggle_adopt_after_gather', 'HazardPointer',
+                       hp_consts(NT=3, K=1, NG=1, NCells=2, NNodes=4, MaxOps=1, Exits=True, Roles='<-RolesExit3', AdoptFirst=False),
+                       invariants=['Safe'], view='mcview', workers=4, expect='violation'),
     ]
     if not q:
         jobs += [
             lambda: tlc_mc(ctx, 'hp_2t_2cells', 'HazardPointer', hp_consts(NCells=2, NNodes=4, MaxOps=3), invariants=inv, view='mcview', workers=12, tmo=3000, heap='24g'),
             lambda: tlc_mc(ctx, 'hp_3t', 'HazardPointer', hp_consts(NT=3, MaxOps=2, NNodes=4), invariants=inv, view='mcview', workers=12, tmo=3000, heap='24g'),
+            lambda: tlc_mc(ctx, 'hp_3t_exit_allroles', 'HazardPointer', hp_consts(NT=3, K=1, NG=1, NCells=2, NNodes=4, MaxOps=1, Exits=True),
+                           invariants=inv, view='mcview', workers=12, tmo=3000, heap='24g'),
+            lambda: tlc_mc(ctx, 'hp_2t_exit', 'HazardPointer', hp_consts(MaxOps=2, NNodes=4, Exits=True), invariants=inv, view='mcview', workers=12, tmo=3000, heap='24g'),
         ]
     if pid in ('C01', 'C02', 'C17'):
         jobs += eb_jobs(ctx, ['Safe'] if pid == 'C01' else inv)
